@@ -2,7 +2,7 @@ import UF.Spec.Match
 import UF.Model.ParseOptions
 import UF.Proofs.MergeSorted
 import UF.Proofs.MatchDomain
-namespace UF
+namespace UF.E
 open Bytes
 
 /-! ### small list facts -/
@@ -255,4 +255,4 @@ theorem finalize_permEquiv (hosts hosts' : List Bytes) (nets nets' : List Prefix
   exact ⟨sortB_eq_of_perm hh,
     ((sortPrefixes_perm nets).trans hn).trans (sortPrefixes_perm nets').symm⟩
 
-end UF
+end UF.E
